@@ -779,10 +779,12 @@ class Oracle(stateful.Stateful):
 
         # Ignore trial files the oracle file does not know about, which are
         # left behind when the program stopped in the middle of `create_trial`.
+        # Keep the trials in the order they were created in, as a process that
+        # was never restarted has them, not in directory-listing order.
         self.trials = {
-            trial_id: trial
-            for trial_id, trial in self.trials.items()
-            if trial_id in self.start_order
+            trial_id: self.trials[trial_id]
+            for trial_id in self.start_order
+            if trial_id in self.trials
         }
 
         # Empty the ongoing_trials and send them for retry.
